@@ -154,11 +154,16 @@ def reverseTraverseGo (a : Arena) (root : NodeId) : Nat → Option NodeEdge → 
 def reverseTraverse (a : Arena) (id : NodeId) (limit : Nat) : Step (List NodeEdge) :=
   reverseTraverseGo a id limit (some (.end id))
 
+/-- `NodeEdge::Start(node) => Some(node), NodeEdge::End(_) => None`. -/
+def NodeEdge.startNode? : NodeEdge → Option NodeId
+  | .start n => some n
+  | .end _ => none
+
 /-- `NodeId::descendants` = the `Start` edges of `traverse` (`find_map` over the inner
     `Traverse`); `limit` bounds the EDGES pulled from the inner iterator. -/
 def descendants (a : Arena) (id : NodeId) (limit : Nat) : Step (List NodeId) :=
   (traverse a id limit).bind fun _ es =>
-    .done a (es.filterMap fun e => match e with | .start n => some n | .end _ => none)
+    .done a (es.filterMap NodeEdge.startNode?)
 
 end Arena
 end XotModel
